@@ -222,6 +222,40 @@ fn lnreturn_check(exact: bool) -> impl Fn(&Case) -> Verdict + Send + Sync {
     }
 }
 
+/// the rolling views over an inner view that withholds its first k inputs: their statistics must be those of the *delivered*
+/// values only (a view that counts update() calls instead of delivered samples is invisible over Echo)
+fn gated_check(case: &Case) -> Verdict {
+    let spec = case.spec();
+    let k = case.ints[0] as usize;
+    let h = bigs(&case.xs);
+    let plain = run_q(spec, &h);
+    let mut v = build_gated::<Q>(spec, k);
+    let before = v.last().map(|o| o.extract());
+    for j in 0..k {
+        v.update(qv(&R::from_integer(((j as i64 + 1) * 777).into())));
+        let now = v.last().map(|o| o.extract());
+        if now != before {
+            return Verdict::fail(format!("C13/{}/gated/Q|changed_while_undelivered", spec.name()), format!("{} over a leaf withholding its first {k} inputs: answer changed from {} to {} at withheld update {}", spec.show(), show_opt(&before), show_opt(&now), j + 1));
+        }
+    }
+    for (t, x) in h.iter().enumerate() {
+        v.update(qv(x));
+        let got = v.last().map(|o| o.extract());
+        let same = match (&got, &plain[t]) {
+            (None, None) => true,
+            (Some(a), Some(b)) => match (a.fin(), b.fin()) {
+                (Some(a), Some(b)) => abs_diff(a, b) <= tol_q_irr(&(b.abs() + R::one())),
+                _ => a == b,
+            },
+            _ => false,
+        };
+        if !same {
+            return Verdict::fail(format!("C13/{}/gated/Q|value", spec.name()), format!("{} over a leaf withholding its first {k} inputs: after {} delivered values it reports {} but over Echo fed the delivered values it reports {}; delivered {}", spec.show(), t + 1, show_opt(&got), show_opt(&plain[t]), show_rats(&case.xs)));
+        }
+    }
+    Verdict::pass(h.len() >= 3, vec![spec.name().to_string()])
+}
+
 pub fn clauses() -> Vec<Clause> {
     let srule = "positive grammar streams of 0..200 values (thorough ..300) on dyadic grids: walks, runs up and down, plateaus, spikes, repeats (new peaks after deeper troughs, repeated equal peaks).";
     vec![
@@ -229,6 +263,7 @@ pub fn clauses() -> Vec<Clause> {
         Clause::generated("C13", "C13/WelfordRolling/long/f64", "streams of 2e4 (thorough up to 1e6) positive values derived from a generated seed: noise, random walk with plateaus, large level with tiny spread; f64 run vs exact integer accumulators at 256 evenly spaced steps and the end; tolerances 1e-9 max|x| (mean), 1e-9 max|x|^2 (variance), 3.3e-5 max|x| (std). Non-trivial: n >= 1000.", 48, 480, |tier| (any::<u64>(), prop_oneof![Just(2_000usize), Just(20_000usize), Just(tier.pick(20_000usize, 1_000_000usize))], 0i64..3).prop_map(|(s, len, shape)| Case { spec: Some(Spec::WelfordRolling(echo())), ints: vec![(s >> 1) as i64, len as i64, shape], a: Rat(1, 1), ..Default::default() }).boxed(), welford_long).with_shard(4),
         Clause::generated("C13", "C13/Drawdown/batch/Q", format!("{srule} Oracle: max_j (peak_j - x_j)/peak_j with peak_j the running maximum, every step, exact. Non-trivial: >= 2 running peaks and a decline after a new peak that followed an earlier drawdown."), 2500, 50_000, move |t| pos_stream(t).prop_map(|xs| Case::of(Spec::Drawdown(echo()), xs)).boxed(), drawdown_check(true)).with_shard(200),
         Clause::generated("C13", "C13/Drawdown/batch/f64", format!("{srule} Same oracle on the f64 run, 4 eps."), 2500, 50_000, move |t| pos_stream(t).prop_map(|xs| Case::of(Spec::Drawdown(echo()), xs)).boxed(), drawdown_check(false)).with_shard(400),
+        Clause::generated("C13", "C13/gated/Q", format!("{srule} WelfordRolling, Drawdown and LnReturn over a leaf that withholds its first k in 1..9 inputs: the answer does not change during the withheld updates and afterwards equals, step by step, the same view over Echo fed only the delivered values (whose agreement with the batch definition is the other clauses' subject)."), 1500, 20_000, move |t| (pos_stream(t), 0usize..3, 1i64..=9).prop_map(|(xs, w, k)| Case { spec: Some([Spec::WelfordRolling(echo()), Spec::Drawdown(echo()), Spec::LnReturn(echo())][w].clone()), xs, ints: vec![k], a: Rat(1, 1), ..Default::default() }).boxed(), gated_check).with_shard(100),
         Clause::generated("C13", "C13/LnReturn/batch/Q", format!("{srule} Oracle: nothing for the first value, then ln(x_t/x_(t-1)) (exact scalar's ln). Non-trivial: n >= 3."), 1200, 20_000, move |t| pos_stream(t).prop_map(|xs| Case::of(Spec::LnReturn(echo()), xs)).boxed(), lnreturn_check(true)).with_shard(100),
         Clause::generated("C13", "C13/LnReturn/batch/f64", format!("{srule} f64 run vs the exact ln of the exact quotient, 1e-15 relative."), 1200, 20_000, move |t| pos_stream(t).prop_map(|xs| Case::of(Spec::LnReturn(echo()), xs)).boxed(), lnreturn_check(false)).with_shard(100),
     ]
